@@ -504,7 +504,7 @@ impl Ctx {
         for e in &self.events {
             match e {
                 Ev::Drop { id, .. } => *drops.entry(*id).or_default() += 1,
-                Ev::Dealloc { addr, status, size, align, rsize, ralign } => {
+                Ev::Dealloc { addr, status, size, align, rsize, ralign, .. } => {
                     *frees.entry(*addr).or_default() += 1;
                     if *status == 1 {
                         self.errors.push(format!("[layout] block {:#x} requested with (size {}, align {}) but released with (size {}, align {})", addr, rsize, ralign, size, align));
@@ -626,7 +626,7 @@ impl Ctx {
             }
         }
         for e in &self.events {
-            if let Ev::Dealloc { status, addr, size, align, rsize, ralign } = e {
+            if let Ev::Dealloc { status, addr, size, align, rsize, ralign, .. } = e {
                 if *status != 0 {
                     let m = format!("[layout] drain: block {:#x} requested (size {}, align {}), released (size {}, align {}), status {}", addr, rsize, ralign, size, align, status);
                     if !self.errors.contains(&m) {
